@@ -60,6 +60,7 @@ def selftest(tier):
 GOOD = [11, 12, 13, 14]
 CONVERTIBLE = True      # Int stores 1 (exact int)
 BADITEM = "x"
+from traits.api import Undefined as UNDEF
 
 
 def arg_items(ex, m, tag="it", full=True):
@@ -67,18 +68,28 @@ def arg_items(ex, m, tag="it", full=True):
     (full=False: only the last position can be invalid and only the first convertible)"""
     items = [GOOD[j % 4] + 10 for j in range(m)]
     if m and full:
-        which = ex.choice(tag + "_special", 2 * m + 1)   # 0..m-1: invalid at pos; m..2m-1: convertible at pos; 2m: none
+        # 0..m-1: invalid at pos; m..2m-1: convertible at pos; 2m..3m-1: the Undefined singleton at pos (invalid like any
+        # other non-int, although plain attribute assignment never validates it); 3m: none
+        which = ex.choice(tag + "_special", 3 * m + 1)
         if which < m:
             items[which] = BADITEM
         elif which < 2 * m:
             items[which - m] = CONVERTIBLE
+        elif which < 3 * m:
+            items[which - 2 * m] = UNDEF
     elif m:
-        which = ex.choice(tag + "_special", 3)
+        which = ex.choice(tag + "_special", 4)
         if which == 0:
             items[-1] = BADITEM
         elif which == 1:
             items[0] = CONVERTIBLE
+        elif which == 2:
+            items[-1] = UNDEF
     return items
+
+
+def is_bad(x):
+    return x is UNDEF or (isinstance(x, str) and x == BADITEM)
 
 
 LIST_OPS = ["set_int", "del_int", "insert", "pop", "pop_default", "imul", "del_slice", "set_slice", "append", "extend",
@@ -134,6 +145,23 @@ def list_harness(op, n, m, mask=None):
         cur = o.xs
         after = list(cur)
         L = len(after)
+        # refinement of list where the trait has no say: the same operation on a built-in list with the converted items
+        if op not in ("assign",):
+            conv = lambda it_: 1 if it_ is True else it_
+            rnew = [conv(i_) for i_ in new] if isinstance(new, list) else conv(new)
+            ref = ListModel(before) if ex.sym else list(before)
+            exc_r = None
+            try:
+                if op == "sort":
+                    pass
+                else:
+                    c05.apply(op, ref, key, rnew, k, False)
+            except (IndexError, ValueError, TypeError) as e:
+                exc_r = type(e).__name__
+            if exc != "TraitError" and op != "sort":
+                ex.check(exc == exc_r, "where the trait has no objection the operation raises exactly where list raises")
+                if exc is None and exc_r is None:
+                    ex.check(after == list(ref), "... and leaves what list leaves (converted items)")
         lo = symx._z(minlen) if ex.sym else minlen
         hi = symx._z(maxlen) if ex.sym else maxlen
         ex.check(z3.And(lo <= L, L <= hi) if ex.sym else (minlen <= L <= maxlen), "length within minlen..maxlen")
@@ -143,10 +171,10 @@ def list_harness(op, n, m, mask=None):
             ex.check(after == before and cur is xs, "failing operation changes nothing")
             ex.check(log == {"items": [], "xs": [], "observe": []}, "failing operation notifies nobody")
         else:
-            bad_given = (new == BADITEM) if not isinstance(new, list) else (BADITEM in new)
+            bad_given = is_bad(new) if not isinstance(new, list) else any(is_bad(x_) for x_ in new)
             if op in ("set_int", "insert", "append", "extend", "iadd", "assign") or \
                     (op == "set_slice"):
-                ex.check(not bad_given or BADITEM not in after, "an invalid item never gets stored")
+                ex.check(not bad_given or not any(is_bad(x_) for x_ in after), "an invalid item never gets stored")
         # a later invalid operation on the resulting value is still rejected (the value stays live)
         exc2 = None
         try:
@@ -442,4 +470,9 @@ def obligations(tier, build):
         obs.append(Obligation("nested/%s" % kind, nested_harness(kind),
                               bounds={"history length": 2, "operations": 9, "payloads": 5, "items": "concrete"},
                               leverage="choice feasibility only (concrete items; two-step histories enumerated through the explorer)"))
+    import props._owners as owners_
+    for kind_ in ("list", "dict", "set"):
+        obs.append(Obligation("sharing/%s" % kind_, owners_.sharing_harness(kind_),
+                              bounds={"ways of handing a value on": owners_.SHARING_HOWS, "declarations": "x and y from ONE shared definition object"},
+                              leverage="choice feasibility only", stubs=[]))
     return obs
